@@ -161,7 +161,10 @@ def oriented_bounds(obj, angle_digits=1, ordered=True, normal=None, coplanar_tol
         if np.linalg.det(vh) < 0.0:
             vh[2] *= -1.0
         points_2d = np.matmul(points_demeaned, vh.T)
-        if np.any(np.abs(points_2d[:, 2]) > coplanar_tol):
+        # the deviation allowed scales with the size of the coordinates: three
+        # points far from the origin are coplanar only up to rounding
+        planar_tol = coplanar_tol * max(1.0, float(np.abs(points).max()))
+        if np.any(np.abs(points_2d[:, 2]) > planar_tol):
             raise ValueError("Points must be coplanar")
 
         # Construct a homogeneous matrix representing the transformation above
